@@ -96,6 +96,12 @@ func (o *c3Obj) has(pred func(*c3Obj) bool) bool {
 	return o.tail != nil && o.tail.has(pred)
 }
 
+// altReadable: the printed text means the same under every *read-base* when numbers carry a radix
+// prefix: no symbol (a bare symbol is barred against the numbers of base 10 and of the print base only).
+func (o *c3Obj) altReadable() bool {
+	return !o.has(func(x *c3Obj) bool { return x.kind == "sym" || x.kind == "raw" || x.kind == "elist" })
+}
+
 func (o *c3Obj) depth() int {
 	d := 0
 	for _, e := range o.elems {
